@@ -197,8 +197,11 @@ func (s *c10Seed) build() []byte {
 func c10Seeds() []*c10Seed {
 	var out []*c10Seed
 	patches := []interface{}{fx.AddServicePatch("s1", "https://example.com/s1"), fx.JSONPatch(fx.JOp("add", "/x", "y"))}
-	for _, kt := range []string{fx.Ed25519, fx.P256} {
+	for _, kt := range fx.KeyTypes {
 		for _, nonce := range []string{"", fx.B64([]byte("0123456789abcdef"))} {
+			if nonce != "" && kt != fx.Ed25519 && kt != fx.P256 {
+				continue
+			}
 			k, k2, k3 := fx.NewKey(kt, "c10/a"), fx.NewKey(kt, "c10/b"), fx.NewKey(kt, "c10/c")
 			tag := kt + "/n=" + fmt.Sprint(nonce != "")
 			if nonce == "" {
@@ -287,7 +290,7 @@ var c10Replacements = []interface{}{nil, "", 0.0, []interface{}{}, map[string]in
 
 func c10(r *hx.Run) {
 	fx.Quiet()
-	r.Rule = "(a) for each valid seed (4 types x {Ed25519,P-256} x nonce absent/present) every limit parameter is set to measured value -1, +0, +1 while all other parameters are generous and pairwise distinct: accepted iff limit >= measured (nonce: == measured); every enabled-list entry used by the request is removed in turn; unrelated parameters are toggled; (b) every JSON path of the request, the decoded signed data and the protected header is removed / replaced by 11 foreign values (re-signed): accepted => independent rule predicate; (c) Parse, ParseOperation(batch and not), GetRevealValue, GetCommitment, ParseDID on every prefix, every path-mutation and a DID-string grammar: error or value, never a panic. Non-trivial: distinct requests that the real parser rejects or that reach a boundary."
+	r.Rule = "(a) for each valid seed (4 types x 5 key types, nonce absent/present for Ed25519 and P-256) every limit parameter is set to measured value -1, +0, +1 while all other parameters are generous and pairwise distinct: accepted iff limit >= measured (nonce: == measured); every enabled-list entry used by the request is removed in turn; unrelated parameters are toggled; (b) every JSON path of the request, the decoded signed data and the protected header is removed / replaced by 11 foreign values (re-signed): accepted => independent rule predicate; (c) Parse, ParseOperation(batch and not), GetRevealValue, GetCommitment, ParseDID on every prefix, every path-mutation and a DID-string grammar: error or value, never a panic. Non-trivial: distinct requests that the real parser rejects or that reach a boundary."
 	seeds := c10Seeds()
 	base := fx.DefaultProtocol()
 	ns := "did:sidetree"
